@@ -717,7 +717,38 @@ def closers_stage(rep, hbin, tier, seed):
     if n < 1000 or hist.get("ok_reparse_equal", 0) < 100 or hist.get("terr", 0) < 100 or hist.get("outer", 0) < 100:
         bad += 1
         rep.violation("mp:vacuous", "multipath stage too small: %d cases %s" % (n, hist), {"property": PID, "broken_tie": "translate-mp"}, found_input=False)
-    cov = {"theorems_closers": thms,
+    # ---- tie: the observed result classes against translate_desc_mp (Ms/TranslateMpModel.v), inside Coq
+    mpc = re.findall(r"^MPC (\d+) ([\d,]+) (\d+)$", p.stdout, flags=re.M)
+    tie_ok, diffs = True, ""
+    if len(mpc) != n:
+        tie_ok = False
+        rep.violation("tie:translate-mp", "engine printed %d MPC lines for %d cases" % (len(mpc), n),
+                      {"property": PID, "broken_tie": "translate-mp output"}, found_input=False)
+    else:
+        rows = ["(%s, [%s], %s)" % (i, ks.replace(",", "; "), c) for i, ks, c in mpc]
+        chunks = [rows[i:i + 1500] for i in range(0, len(rows), 1500)]
+        gen = ["From Coq Require Import List NArith.", "Import ListNotations.", "Local Open Scope N_scope."]
+        for ci, ch in enumerate(chunks):
+            gen.append("Definition mp_cases_%d : list (N * list N * N) := [\n  %s ]." % (ci, ";\n  ".join(ch)))
+        gen.append("Definition mp_cases : list (N * list N * N) := %s." % " ++ ".join("mp_cases_%d" % ci for ci in range(len(chunks))))
+        open(os.path.join(vlib.COQ, "Tables", "TranslateMpCasesGen.v"), "w").write("\n".join(gen) + "\n")
+        for fcoq in ("Tables/TranslateMpCasesDefs.v", "Tables/TranslateMpCasesGen.v"):
+            c0 = vlib.coqc(fcoq)
+            if c0.returncode != 0:
+                raise RuntimeError("%s does not compile: %s" % (fcoq, (c0.stderr or c0.stdout)[-1500:]))
+        c1 = vlib.coqc("Tables/TranslateMpCasesCheck.v")
+        if c1.returncode != 0:
+            tie_ok = False
+            c2 = vlib.coqc("Tables/TranslateMpCasesDiag.v")
+            diffs = (c2.stdout or c2.stderr)[-3000:]
+            rep.violation("tie:translate-mp", "Descriptor::translate_pk with multipath / illegal / unmapped target keys differs from the model "
+                          "translate_desc_mp (descriptor index, kinds, observed class, model class): " + re.sub(r"\s+", " ", diffs)[:1200],
+                          {"property": PID, "broken_tie": "mp_cases_match_model (Tables/TranslateMpCasesCheck.v)", "differences": diffs,
+                           "stage": "multipath"}, found_input=(bad > 0))
+    if not tie_ok:
+        bad += 1
+    cov = {"multipath_cases_compared_in_coq": len(mpc) if tie_ok else 0,
+           "theorems_closers": thms,
            "print_assumptions_closers": [("closed" if b["closed"] else ",".join(b["axioms"])) for b in blocks],
            "multipath_stage": {"cases": n, "results": dict(sorted(hist.items())), "observations_not_violations": obs, "samples": samples}}
     return cov, len(thms) + 1, (len(thms) if not problems else 0) + (1 if bad == 0 else 0), n
